@@ -41,7 +41,7 @@ def _content(lines, eol="\n"):
     return eol + "".join(l + eol for l in lines)
 
 
-def gen_block(r, name, scripts, use_ai=True, use_lua=True, max_rules=4, force=None):
+def gen_block(r, name, scripts, use_ai=True, use_lua=True, max_rules=4, force=None, bogus_severity=True):
     n = r.choice([0, 1, 2, 3, 5, 8])
     numeric_content = r.random() < 0.25
     if numeric_content:
@@ -96,9 +96,16 @@ def gen_block(r, name, scripts, use_ai=True, use_lua=True, max_rules=4, force=No
             ai_reply = r.choice(["OK", "ok", "Ok.", "OK.", "not fine: " + ai_token, "No."])
             if ai_reply.lower() not in ("ok", "ok."):
                 expected.append(("check-ai", sev_num))
-    if sev_attr is not None:
+    bogus = False
+    if bogus_severity and not expected and force is None and r.random() < 0.12:
+        # a block that owes no diagnostic may carry any severity text: the attribute is only read when a diagnostic is built
+        attrs.append(("severity", r.choice(["critical", "fatal", "warn", ""])))
+        bogus = True
+    elif sev_attr is not None:
         attrs.append(("severity", sev_attr))
-    return SBlock(name, attrs, lines, expected, ai_token, ai_reply)
+    sb = SBlock(name, attrs, lines, expected, ai_token, ai_reply)
+    sb.bogus_severity = bogus
+    return sb
 
 
 def render_file(blocks, opener, eol="\n", filler=None):
@@ -151,7 +158,7 @@ def add_affects(r, s, p=0.35):
         blocks = s.blocks[path]
         touched = []
         for b in blocks:
-            if b.lines and r.random() < p and not any(a == "affects" for a, _ in b.attrs):
+            if b.lines and r.random() < p and not any(a == "affects" for a, _ in b.attrs) and not getattr(b, "bogus_severity", False):
                 b.two_targets = r.random() < 0.3      # two unmodified targets: two diagnostics with the same range and code
                 b.attrs.insert(1, ("affects", (":ghost-%s, :spectre-%s" % (b.name, b.name)) if b.two_targets else ":ghost-" + b.name))
                 touched.append(b)
